@@ -137,7 +137,15 @@ Definition file_step (st : disk * option stream) (l : list Z) : (disk * option s
   | 31 :: n :: bytes, None =>
       if bytes_ok bytes && negb (match dfind d n with Some EDir => true | _ => false end)
       then ((dset d n (EFile bytes), os), [1]) else (st, [PRE])
-  | [1; n; m], None =>
+  | [32; n; m], _ =>
+      (* a symbolic link n to the directory m: a directory as far as File::open is concerned *)
+      match dfind d n, dfind d m with
+      | None, Some EDir => ((dset d n EDir, os), [1])
+      | _, _ => (st, [PRE])
+      end
+  | [1; n; m], _ =>
+      (* also on a File that is open: open() closes the old stream after its checks (the model writes through, so
+         closing changes nothing on the disk); a failed check leaves the old stream open *)
       match mode_of m with
       | Some md => match file_open d n md with
                    | inl e => (st, [ferr_z e])
